@@ -6,6 +6,7 @@ import (
 	storageerrors "github.com/formancehq/ledger/internal/storage/sqlutils"
 
 	ledger "github.com/formancehq/ledger/internal"
+	"github.com/formancehq/ledger/internal/verifhook"
 	"github.com/formancehq/stack/libs/go-libs/logging"
 )
 
@@ -22,6 +23,7 @@ func (e *executionContext) AppendLog(ctx context.Context, log *ledger.Log) (*led
 	}
 
 	chainedLog := e.commander.chainLog(log)
+	verifhook.Yield(ctx, "append.chained")
 	logging.FromContext(ctx).WithFields(map[string]any{
 		"id": chainedLog.ID,
 	}).Debugf("Appending log")
@@ -29,6 +31,7 @@ func (e *executionContext) AppendLog(ctx context.Context, log *ledger.Log) (*led
 	e.commander.Append(chainedLog, func() {
 		close(done)
 	})
+	verifhook.Yield(ctx, "append.done")
 	return chainedLog, done, nil
 }
 
@@ -38,6 +41,7 @@ func (e *executionContext) run(ctx context.Context, executor func(e *executionCo
 			return nil, err
 		}
 		defer e.commander.referencer.release(referenceIks, ik)
+		verifhook.Yield(ctx, "run.ik.taken")
 
 		chainedLog, err := e.commander.store.ReadLogWithIdempotencyKey(ctx, ik)
 		if err == nil {
@@ -46,12 +50,14 @@ func (e *executionContext) run(ctx context.Context, executor func(e *executionCo
 		if err != nil && !storageerrors.IsNotFoundError(err) {
 			return nil, err
 		}
+		verifhook.Yield(ctx, "run.ik.checked")
 	}
 	chainedLog, done, err := executor(e)
 	if err != nil {
 		return nil, err
 	}
 	<-done
+	verifhook.Yield(ctx, "run.done")
 	logger := logging.FromContext(ctx).WithFields(map[string]any{
 		"id": chainedLog.ID,
 	})
